@@ -216,12 +216,19 @@ def _run(ctx, case, net):
             if mech:
                 continue
             return
+        seq = tuple((net_ref.level(net.rig.radios.index(p.src) and 0 or 0) if False else p.src.name == net.bykey[ms["src"]].radio.name,
+                     p.kind, p.attempt, tuple(o[1].split(":")[0] for o in p.outcomes))
+                    for p in net.air.log[rec["air0"]:rec["air1"]])
+        ctx.distinct("per_message_air_sequences", (hops, seq))
         if onair:
             ctx.nontrivial((len(case["nodes"]), max(net_ref.level(a) for a in case["nodes"]),
                             net_ref.level(ms["src"]), net_ref.level(ms["dst"]), hops,
                             len_class(ms["len"]), type_class(ms["type"]), pcls,
                             case["kinds"][str(ms["src"])], case["kinds"][str(ms["dst"])]))
     ctx.count("messages_judged", len(net.results))
+    ctx.distinct("air_order_digests", net.air_digest())
+    for st in net.radio_states():
+        ctx.distinct("radio_states", st)
     ctx.sample({"nodes": [oct(a) for a in nodes], "kinds": case["kinds"], "hostile": hostile,
                 "messages": len(net.results), "air_packets": len(net.air.log),
                 "baton_switches": net.world.n_switches,
